@@ -116,4 +116,24 @@ theorem insertLeaf_cases (P : Policy) (l : LeafN) (s : Clu) (next : Nat) :
     have hemp : l.subs.isEmpty = false := by cases hs : l.subs <;> simp_all
     simp [r, insertLeaf, hemp, hc, ha]
 
+/-- the number of entries and the over-full flag of the model's inner-node step `ins (h+1)`: with the routed entry `i` and the
+result `r` of the recursive insertion into its child — entries +1 and `over = (cap < entries + 1)` when the child came back
+over-full (it is split), unchanged and not over-full otherwise -/
+theorem ins_cases (P : Policy) (h : Nat) (t : InnerN (Tree h)) (s : Clu) (next : Nat) (c : Clu) (child : Tree h)
+    (hc : t.ents[P.route t.cache s.cent]? = some (c, child)) :
+    let r := ins P (h + 1) t s next
+    let rc := ins P h child s next
+    (rc.over = true → (r.node : InnerN (Tree h)).ents.length = t.ents.length + 1 ∧ r.over = decide (t.cap < t.ents.length + 1)) ∧
+    (rc.over = false → (r.node : InnerN (Tree h)).ents.length = t.ents.length ∧ r.over = false) := by
+  intro r rc
+  constructor
+  · intro ho
+    simp only [r, ins, hc]
+    simp only [rc] at ho
+    simp [ho]
+  · intro ho
+    simp only [r, ins, hc]
+    simp only [rc] at ho
+    simp [ho]
+
 end BB
